@@ -7,6 +7,10 @@
 EXTENDS Core, RecheckRef, TLC, Json, IOUtils
 
 Recs == ndJsonDeserialize(IOEnv.TRACE_FILE)
+\* the implementation-shaped models, instantiated at the real piece length: what THEY predict the code
+\* yields, step for step (clause M16.impl binds them to the code; it is not a property verdict)
+FC == INSTANCE FeedChecker WITH MaxFiles <- 0, MaxSize <- 0, PieceLens <- {}, Variant <- "fixed", WithPads <- TRUE, st <- 0
+HC == INSTANCE HashChecker WITH MaxFiles <- 0, MaxSize <- 0, PieceLens <- {}, Variant <- "fixed", st <- 0
 VARIABLES i, grp
 vars == <<i, grp>>
 
@@ -20,8 +24,13 @@ Abs(x) == IF x < 0 THEN -x ELSE x
 Failed(r) == r.status # "ok"
 InGrp(r) == grp.n > 0 /\ grp.id = r.group
 
+Fuel(r) == 4 * (Len(r.recs) + CeilDiv(Total(r.recs), r.P)) + 20
+ImplStream(r) == IF r.version = 1
+                 THEN FC!Run(FC!InitSt(r.recs, r.kinds, Disk(r), r.P), Fuel(r)).out
+                 ELSE HC!Run(HC!InitSt(r.recs, Disk(r), r.P), Fuel(r)).out
 Clause(r, c) ==
-  CASE c = "C16.stream" -> ~Failed(r) /\ (r.nostream \/ Got(r) = Ref(r))
+  CASE c = "M16.impl" -> Failed(r) \/ r.nostream \/ Got(r) = ImplStream(r)
+    [] c = "C16.stream" -> ~Failed(r) /\ (r.nostream \/ Got(r) = Ref(r))
     [] c = "C16.total"  -> ~Failed(r) /\ (r.nostream \/ ConsumedBytes(Got(r)) = Total(r.recs))
     [] c = "C16.ppm"    -> ~Failed(r) /\ Abs(r.ppm - SharePpm(Ref(r))) <= 1 /\ r.ppm2 = r.ppm
     [] c = "C04.lt100"  -> IsIntact(r) \/ Failed(r) \/ (r.ppm < 100000000 /\ r.ppm2 < 100000000)
